@@ -24,6 +24,7 @@ CONSTANTS
   MinSteps = 5
   MaxSteps = 8
   RationalOnly = FALSE
+  Twins = FALSE
   NeedDt = FALSE
   BindLeaves = TRUE
   EmitOn = TRUE
